@@ -79,6 +79,7 @@ class Cfg:
         self.corr_start = None     # all ranks count correlation ids from the same number (ids collide across ranks)
         self.tid_base = 100        # host thread ids are tid_base + rank and 2 * tid_base + rank
         self.share_streams = 0.0   # probability that a launch of the second host thread goes to a stream of the first
+        self.pyfunc = False        # Python frames (cat python_function, as written with with_stack=True) on a thread of their own
         self.__dict__.update(kw)
 
     def to_json(self) -> Dict[str, Any]:
@@ -107,6 +108,7 @@ def draw_cfg(rng: random.Random, **force: Any) -> Cfg:
     c.corr_start = rng.choice([None, None, None, 1, 100, -1])
     c.tid_base = rng.choice([100] * 12 + [3, 2, 1, 50000])
     c.share_streams = rng.choice([0.0, 0.0, 0.5])
+    c.pyfunc = rng.random() < 0.15
     c.__dict__.update(force)
     return c
 
@@ -407,6 +409,17 @@ class RankSim:
                     # the second thread gets busy just after the first one told a stream to wait for an event
                     start = rng.choice(waits) - cfg.offset * 0 + self.g * rng.choice([0, 0, 1])
                 self.ops_seq(start, rng.randint(1, 3) + (2 if cfg.share_streams else 0), bwd_tid, bstreams, BWD_OPS)
+        if cfg.pyfunc:
+            # Python frames: complete events of category python_function, properly nested, on their own thread id
+            t0 = t_begin
+            names = ["torch/nn/modules/module.py(1501): _call_impl", "train.py(42): step", "<built-in method linear of type object at 0x7f>"]
+            for k in range(rng.randint(1, 3)):
+                outer = self.g * rng.choice([4, 8, 13])
+                self.x("python_function", names[0], self.host_pid, main_tid + 7, t0, outer, {"Python id": 3 * k + 1, "Python parent id": None})
+                inner = self.g * rng.choice([1, 2, 3])
+                self.x("python_function", rng.choice(names[1:]), self.host_pid, main_tid + 7, t0 + self.g * rng.choice([0, 1]), inner,
+                       {"Python id": 3 * k + 2, "Python parent id": 3 * k + 1})
+                t0 += outer + self.g * rng.choice([0, 1, 5])
         return self.ev
 
 
